@@ -74,7 +74,13 @@ func genC16(t *rapid.T, ctx *Ctx) interface{} {
 			}
 			op.Stream = rapid.Bool().Draw(t, "mstream")
 		default:
-			op.Events = gen.Document(t, evOpts)
+			if i > 0 && rapid.IntRange(0, 3).Draw(t, "again") == 0 {
+				// the same document once more: identifiers (markers, record types) defined by an earlier
+				// document must be free again
+				op.Events = ev.Clone(c.Ops[i-1].Events)
+			} else {
+				op.Events = gen.Document(t, evOpts)
+			}
 			muts := []string{"none", "none", "none", "truncate", "flip"}
 			if c.Kind == "rules" || c.Kind == "cbe-encoder" || c.Kind == "cte-encoder" {
 				muts = []string{"none", "none", "none", "drop-event", "extra-end", "prefix"}
